@@ -661,7 +661,7 @@ Proof.
 Qed.
 
 (* ---- the arms of AnsiTok.csi_final that do not touch the line table --------------------------------------------------------------------------------------- *)
-Definition keeps (t : term) (o : outcome) : Prop := match o with OOk m | OErr m => lines (tm m) = lines t | _ => True end.
+Definition keeps (t : term) (o : outcome) : Prop := match o with OOk m | OErr m | ODeep m => lines (tm m) = lines t | OPanic _ => True end.
 Lemma keeps_grow t o : keeps t o -> out_grow t o = 0.
 Proof. destruct o as [m|m| |]; cbn [keeps out_grow]; try reflexivity; intro H; unfold grow, size_of; rewrite H; lia. Qed.
 Lemma keeps_ok t t' p : lines t' = lines t -> keeps t (ok t' p). Proof. intro H. exact H. Qed.
